@@ -229,3 +229,14 @@ _amend('C14', 'text', "Channel delivery inside match_changes is not decided.",
 _amend('C15', 'text', "Not decided: what SQLite/cr-sqlite do with the DDL",
        "Structural: the loop over tables present in both schemas is left early only by an error, so a table that passed the column rules also reaches the index "
        "comparison. Not decided: what SQLite/cr-sqlite do with the DDL")
+
+# ---- round 6: chunk_range proved without a bound (Verus unit c08_chunk_range_v / c04_chunk_range_v); the Kani unit stays as the counterexample source
+_amend('C08', 'text', "union = request is checked by Kani with stated bounds.",
+       "union = request is proved without a bound (Verus: the real closure body against the block arithmetic, for every range and every chunk size >= 1, under "
+       "the std contract of step_by/map) and additionally run through Kani on the real std adapters with stated bounds (counterexample source).")
+_amend('C08', 'technique', "Kani (bounded) on chunk_range", "Verus on the real chunk_range (std step_by/map contract assumed) with a bounded Kani twin on the real adapters")
+_amend('C08', 'note', "chunk_range (version sub-ranges): see evidence for its status.",
+       "chunk_range: generic T instantiated with CrsqlDbVersion; precondition end + chunk_size <= u64::MAX.")
+_amend('C04', 'text', "(chunk_range) is checked by Kani with stated bounds, not proved.",
+       "(chunk_range) is proved to cover exactly the need for every range and chunk size (Verus, std step_by/map contract assumed), with a bounded Kani twin on the real adapters.")
+_amend('C04', 'technique', "Kani (bounded) on chunk_range", "Verus on the real chunk_range with a bounded Kani twin")
